@@ -784,6 +784,22 @@ pub fn run_until(mut pred: impl FnMut() -> bool, until_ns: u64, max_steps: u64) 
 
 /// Drive the simulation until `fut` resolves (used by the runtime facade's
 /// `block_on` and by directors that want to await something).
+/// poll `fut` exactly once, without running the simulation or the clock: `None` if it is not ready
+/// (e.g. a send into a full queue). Unlike `block_on` this can never let virtual time pass.
+pub fn try_now<F: Future>(fut: F) -> Option<F::Output> {
+    struct Noop;
+    impl Wake for Noop {
+        fn wake(self: Arc<Self>) {}
+    }
+    let waker = Waker::from(Arc::new(Noop));
+    let mut cx = Context::from_waker(&waker);
+    let mut fut = std::pin::pin!(fut);
+    match fut.as_mut().poll(&mut cx) {
+        Poll::Ready(v) => Some(v),
+        Poll::Pending => None,
+    }
+}
+
 pub fn block_on<F: Future>(fut: F) -> F::Output {
     struct Flag(std::sync::atomic::AtomicBool);
     impl Wake for Flag {
